@@ -5,3 +5,4 @@ import FlatModel.Props.C03
 #print axioms FC.C03.rep_clear
 #print axioms FC.C03.rep_extend
 #print axioms FC.C03.rep_fromIter
+#print axioms FC.C03.iter_spec
